@@ -132,6 +132,14 @@ def make_llparser(tokenizer_str, **kw):
     return parser
 
 
+def build_decoy(cfg):
+    """another part of the program builds a parser of its own now: same group names and delimiters, but its
+    multi-line tokens keep the closing delimiter as part of the value"""
+    spans = {'TEXT': r"(?P<END_TEXT>(.|\n)*?''')", 'ML': r"(?P<END_ML>(.|\n)*?''')"}
+    return llparser.LLParser(r"(?P<SPACE>\s+)|(?P<TEXT>''')|(?P<ML>!!!)|(?P<W>[a-z]+)", productions={'E': [('TEXT', 'ML', 'W')]},
+                             span_matchers=spans)
+
+
 class VfAlternatives(llparser.ProdsTemplate):
     """a template written by the user of the package: it only generates the alternatives of its symbol and
     leaves the result tree alone"""
@@ -226,7 +234,7 @@ class TokCfg:
     def value_of(self, term, lexeme):
         if term == "STR":
             return lexeme[1:-1]
-        if term == "TEXT":
+        if term == "TEXT" or (term == "STRING" and lexeme.startswith("'''")):
             return lexeme[3:-3]
         return lexeme
 
@@ -297,6 +305,17 @@ TOKCFGS = [
         {'WORD': ['A', 'XY'], 'CONST': ['a', 'xy'], 'n': ['1', '20'], '=': ['=']},
         [" ", "\n", "  "],
         synonyms={'NAME': 'WORD', 'WORD': 'CONST', 'NUM': 'n', 'EQ': '='},
+    ),
+    TokCfg(
+        "chained-span-synonyms",
+        # the multi-line token is called STRING; what the pattern calls STRING (a one-line literal) is called str
+        r"""(?P<SPACE>\s+)|(?P<ML>''')|(?P<STRING>"[^"]*")|(?P<W>[a-z]+)|(?P<EQ>=)""",
+        ['STRING', 'str', 'WORD', '='],
+        {'STRING': ["'''x y'''", "''''''", "'''p\nq = r'''"], 'str': ['"a"', '""', '"b c"'], 'WORD': ['a', 'bc'],
+         '=': ['=']},
+        [" ", "\n", "  "],
+        synonyms={'ML': 'STRING', 'STRING': 'str', 'W': 'WORD', 'EQ': '='},
+        span_matchers={'ML': r"(?P<END_ML>(.|\n)*?)'''"},
     ),
     TokCfg(
         "catch-all-words",
